@@ -217,9 +217,9 @@ def g_run_at_end(rng):
     return pre + run          # the run ends the list
 
 def g_range_after_array(rng):
-    """class range-after-array on purpose: an array that holds a run and ends in a value x,
-    followed by a unit-step run that starts at x (the printer elides the run's second value,
-    the checker finds the ellipsis inside the array)"""
+    """D32 (fixed): an array that holds a run and ends in a value x, followed by a unit-step run
+    that starts at x (the printer elides the run's second value; the checker used to find the
+    ellipsis inside the array)"""
     k = rng.choice("ih")
     a = rng.randint(-40, 40); m = rng.randint(5, 7)
     x = a + m + rng.randint(2, 9)
@@ -243,7 +243,7 @@ def gen_struct(rng, tier, dist, n):
         if rng.random() < 0.12:
             vals = g_run_at_end(rng); parts = 0; compress = 1; bump("run-at-end")
         elif rng.random() < 0.01:
-            vals = g_range_after_array(rng); parts = 0; compress = 1; bump("range-after-array (known finding)")
+            vals = g_range_after_array(rng); parts = 0; compress = 1; bump("run-after-array-with-run")
         for _p in range(parts):
             q = rng.random()
             if q < 0.35:
@@ -415,16 +415,6 @@ def classify(case, impl, failure):
             ("d:0000000000000000" in vals and "d:8000000000000000" in vals)):
         return "signed-zero-run"
     if f[3] != "0":
-        # range-after-array (side condition of C10_mixed_reads_partial: no range tail "b ... c"
-        # directly after an array): the printer elides the second value of a run that follows an
-        # array whose last element EQUALS the run's first value; the checker then looks for the
-        # tail's left neighbour in the text of the array and finds an ellipsis inside it
-        import re
-        d = fields(impl)
-        if d.get("P", "-") != "-":
-            text = bytes.fromhex(d["P"]).decode("latin-1")
-            if re.search(r"[0-9a-zA-Z'\"]h?(\s*\])+\s+[-+0-9'][^\s]*\s+\.\.\.", text):
-                return "range-after-array"
         # the side conditions of C10_roundtrip_any_partial (PrettyProofs/ListProofs goodc)
         for v in vals:
             if v[:2] in ("s:", "S:") and "2e2e2e" in v[2:] and bytes.fromhex(v[2:]).find(b"...") >= 0:
